@@ -19,6 +19,11 @@ namespace BV
 @[simp] theorem exTry_error {ε α : Type} (e : ε) (h : ε → Except ε α) :
     Except.tryCatch (.error e : Except ε α) h = h e := rfl
 
+@[simp] theorem pyTry_ok {α β : Type} (a : α) (f : α → Except PErr β) (h : PErr → Except PErr β) :
+    pyTry (.ok a) f h = f a := rfl
+@[simp] theorem pyTry_error {α β : Type} (e : PErr) (f : α → Except PErr β) (h : PErr → Except PErr β) :
+    pyTry (.error e : Except PErr α) f h = h e := rfl
+
 /-! ### the Python dict `field_values : Dict[str, str]` and the model's `FVals` -/
 
 /-- abstraction: the model's group dict has `Option Str` values, a Python `Dict[str, str]` only present ones -/
